@@ -5,6 +5,8 @@ import (
 	"log/slog"
 	"net/http"
 	"os"
+	"runtime/debug"
+	"strconv"
 	"strings"
 	"testing"
 
@@ -104,4 +106,64 @@ func printable(b []byte, n int) string {
 		out = append(out, ch)
 	}
 	return fmt.Sprintf("[%d bytes] %s", len(b), out)
+}
+
+// ---- race detector plumbing (same scheme as g_conc/racelog_test.go) ----
+//
+// With GORACE=log_path=<p> (set in registry.d for the properties built with
+// -race) the detector writes its reports to <p>.<pid>. Reading that file after
+// a case lets a report surface as a violation bound to the case that provoked
+// it, instead of only failing the binary at exit.
+
+// raceBuild reports whether this test binary was built with -race.
+func raceBuild() bool {
+	bi, ok := debug.ReadBuildInfo()
+	if !ok {
+		return false
+	}
+	for _, s := range bi.Settings {
+		if s.Key == "-race" {
+			return s.Value == "true"
+		}
+	}
+	return false
+}
+
+// raceLog returns this process's report file and its current size; size -1
+// means no log_path is configured (reports then only fail the binary).
+func raceLog() (string, int64) {
+	for _, f := range strings.Fields(os.Getenv("GORACE")) {
+		if v, ok := strings.CutPrefix(f, "log_path="); ok {
+			path := v + "." + strconv.Itoa(os.Getpid())
+			st, err := os.Stat(path)
+			if err != nil {
+				return path, 0
+			}
+			return path, st.Size()
+		}
+	}
+	return "", -1
+}
+
+// raceDelta turns report text that appeared since `before` into a violation.
+func raceDelta(out *lib.Outcome, id string, before int64) {
+	path, after := raceLog()
+	if before < 0 || after <= before {
+		return
+	}
+	data, _ := os.ReadFile(path)
+	if int64(len(data)) > before {
+		data = data[before:]
+	}
+	out.Violate(id+"/data-race", "the race detector reported during this case:\n%s", lib.Short(string(data), 3000))
+}
+
+// dumpRaceLog copies the report file into the worker log at the end of a test,
+// so that "WARNING: DATA RACE" is visible to the driver even for a report that
+// fell outside every case's window.
+func dumpRaceLog() {
+	if path, sz := raceLog(); sz > 0 {
+		data, _ := os.ReadFile(path)
+		fmt.Printf("RACE-REPORT-FILE %s\n%s\n", path, data)
+	}
 }
